@@ -409,14 +409,14 @@ func fnHello(ctx *cmdContext, args map[string]any) (output respValue, err error)
 				output.data = respErrorString("NOPROTO unsupported protocol version")
 				return
 			}
-			ctx.cs.respVersion = int(ver)
+			ctx.cs.setRespVersion(int(ver))
 		}
 	}
 
 	props := map[string]any{
 		"server":  "redis",
 		"version": "7.0.0",
-		"proto":   ctx.cs.respVersion,
+		"proto":   ctx.cs.getRespVersion(),
 		"id":      ctx.cs.id,
 		"mode":    "standalone",
 		"role":    "master",
